@@ -97,7 +97,8 @@ def rand_value(rng, start_flag=False):
         elif r < 0.3:
             v = rng.choice(["1", "a", "0", "x", "YES"])          # short strings CPython interns
         elif r < 0.4:
-            v = rng.choice(["0.000=120.000", "60:240", "*", "a:b:c", "TIME=1.5:LEN=2:MODS=drunk", ":240", "a::b"])
+            v = rng.choice(["0.000=120.000", "60:240", "*", "a:b:c", "TIME=1.5:LEN=2:MODS=drunk", ":240", "a::b",
+                            "two\nlines", "cr\rlf", "x\r\n y", "0.000=120.000,\n4.000=90.000"])       # several lines, nothing that needs escaping
         else:
             v = rand_text(rng)
         if "\r" in v:
